@@ -79,6 +79,10 @@ finding(
 
 finding("P54", ["C12"], "fixed", "sync creates a missing class file as `class <truth's name>` instead of --class-name; a missing function file raises TypeError", "b730503")
 
+finding("P55", ["C19"], "fixed", "gen with --imports-from-file and --emit-and-infer-imports writes `from typing import *from sqlalchemy import ...` (SyntaxError)", "211555b")
+
+finding("P38", ["C19", "C03"], "fixed", "argparse_ast IR has no 'returns' key; json_schema/sqlalchemy emitters raise KeyError on it (gen --parse argparse --emit json_schema)", "4d775b6")
+
 # ------------------------------------------------------------------ open
 finding("P9", ["C12"], "open", "sync leaves function and argparse targets that differ from the truth untouched ('unchanged'); Class.method targets get a new top-level def appended on every run; (repair would break 4 pinned test_conformance tests)")
 finding("P12", ["C01", "C08"], "open", "string default '' is emitted as 'Defaults to' and lost; string defaults containing '.' are truncated")
@@ -129,7 +133,6 @@ finding("P32", ["C16"], "open", "openapi_bulk on a model with a ForeignKey colum
 finding("P33", ["C16"], "open", "openapi_bulk on a model without explicit primary key: synthesised id column puts an ast.Call into the schema (not JSON-serialisable)")
 finding("P35", ["C14"], "open", "function.parse drops *args, undocumented **kwargs and positional-only parameters")
 finding("P37", ["C19"], "open", "gen --parse sqlalchemy_table raises AttributeError; SQLAlchemy class inputs are named after __tablename__")
-finding("P38", ["C19", "C03"], "open", "argparse_ast IR has no 'returns' key; json_schema/sqlalchemy emitters raise KeyError on it")
 
 
 W = []
@@ -214,6 +217,15 @@ W.append(('P9', "C12", {'irs': [{'name': 'Foo', 'doc': 'Some summary.', 'params'
 W.append(('P9', "C12", {'irs': [{'name': 'Foo', 'doc': 'Some summary.', 'params': [['a', {'typ': 'int', 'doc': 'the a', 'default': 5}]], 'kinds': ['?'], 'returns': None}, {'name': 'Foo', 'doc': 'Some summary.', 'params': [['a', {'typ': 'int', 'doc': 'the a', 'default': 5}]], 'kinds': ['?'], 'returns': None}, {'name': 'Foo', 'doc': 'Some summary.', 'params': [['b', {'typ': 'str', 'doc': 'the b', 'default': 'x'}]], 'kinds': ['?'], 'returns': None}], 'same': False, 'truth': 'class', 'states': {'class': 'present', 'function': 'present', 'argparse_function': 'present'}, 'method': False, 'runs': 1, 'nww': False}))
 W.append(('P9', "C12", {'irs': [{'name': 'Foo', 'doc': 'Some summary.', 'params': [['a', {'typ': 'int', 'doc': 'the a', 'default': 5}]], 'kinds': ['?'], 'returns': None}, {'name': 'Foo', 'doc': 'Some summary.', 'params': [['b', {'typ': 'str', 'doc': 'the b', 'default': 'x'}]], 'kinds': ['?'], 'returns': None}, {'name': 'Foo', 'doc': 'Some summary.', 'params': [['a', {'typ': 'int', 'doc': 'the a', 'default': 5}]], 'kinds': ['?'], 'returns': None}], 'same': False, 'truth': 'class', 'states': {'class': 'present', 'function': 'present', 'argparse_function': 'present'}, 'method': True, 'runs': 2, 'nww': False}))
 W.append(('P54', "C12", {'irs': [{'name': 'Foo', 'doc': 'Some summary.', 'params': [['a', {'typ': 'int', 'doc': 'the a', 'default': 5}]], 'kinds': ['?'], 'returns': None}, {'name': 'Foo', 'doc': 'Some summary.', 'params': [['a', {'typ': 'int', 'doc': 'the a', 'default': 5}]], 'kinds': ['?'], 'returns': None}, {'name': 'Foo', 'doc': 'Some summary.', 'params': [['a', {'typ': 'int', 'doc': 'the a', 'default': 5}]], 'kinds': ['?'], 'returns': None}], 'same': True, 'truth': 'argparse_function', 'states': {'class': 'missing', 'function': 'missing', 'argparse_function': 'present'}, 'method': False, 'runs': 2, 'nww': False}))
+
+# ---- C19 witnesses
+W.append(('P17a', "C19", {'in': 'class', 'names': ['Alpha', 'Beta'], 'irs': [{'name': 'Foo', 'doc': 'Some summary.', 'params': [['a', {'typ': 'int', 'doc': 'the a', 'default': 5}], ['b', {'typ': 'Optional[str]', 'doc': 'the b'}]], 'kinds': ['?', '?'], 'returns': None}, {'name': 'Foo', 'doc': 'Some summary.', 'params': [['c', {'typ': "Literal['x', 'y']", 'doc': 'the c', 'default': 'x'}]], 'kinds': ['?'], 'returns': None}], 'parse': 'explicit', 'emit': 'function', 'tpl': '{name}Config', 'infer': False, 'prepend': None, 'existing': False}))
+W.append(('P17b', "C19", {'in': 'class', 'names': ['Alpha', 'Beta'], 'irs': [{'name': 'Foo', 'doc': 'Some summary.', 'params': [['a', {'typ': 'int', 'doc': 'the a', 'default': 5}], ['b', {'typ': 'Optional[str]', 'doc': 'the b'}]], 'kinds': ['?', '?'], 'returns': None}, {'name': 'Foo', 'doc': 'Some summary.', 'params': [['c', {'typ': "Literal['x', 'y']", 'doc': 'the c', 'default': 'x'}]], 'kinds': ['?'], 'returns': None}], 'parse': 'explicit', 'emit': 'pydantic', 'tpl': '{name}Config', 'infer': False, 'prepend': None, 'existing': False}))
+W.append(('P17c', "C19", {'in': 'class', 'names': ['Alpha', 'Beta'], 'irs': [{'name': 'Foo', 'doc': 'Some summary.', 'params': [['a', {'typ': 'int', 'doc': 'the a', 'default': 5}], ['b', {'typ': 'Optional[str]', 'doc': 'the b'}]], 'kinds': ['?', '?'], 'returns': None}, {'name': 'Foo', 'doc': 'Some summary.', 'params': [['c', {'typ': "Literal['x', 'y']", 'doc': 'the c', 'default': 'x'}]], 'kinds': ['?'], 'returns': None}], 'parse': 'explicit', 'emit': 'class', 'tpl': '{name}Config', 'infer': True, 'prepend': None, 'existing': False}))
+W.append(('P36', "C19", {'in': 'argparse', 'names': ['Alpha', 'Beta'], 'irs': [{'name': 'Foo', 'doc': 'Some summary.', 'params': [['a', {'typ': 'int', 'doc': 'the a', 'default': 5}], ['b', {'typ': 'Optional[str]', 'doc': 'the b'}]], 'kinds': ['?', '?'], 'returns': None}, {'name': 'Foo', 'doc': 'Some summary.', 'params': [['c', {'typ': "Literal['x', 'y']", 'doc': 'the c', 'default': 'x'}]], 'kinds': ['?'], 'returns': None}], 'parse': 'explicit', 'emit': 'class', 'tpl': '{name}Config', 'infer': False, 'prepend': None, 'existing': False}))
+W.append(('P55', "C19", {'in': 'class', 'names': ['Alpha', 'Beta'], 'irs': [{'name': 'Foo', 'doc': 'Some summary.', 'params': [['a', {'typ': 'int', 'doc': 'the a', 'default': 5}], ['b', {'typ': 'Optional[str]', 'doc': 'the b'}]], 'kinds': ['?', '?'], 'returns': None}, {'name': 'Foo', 'doc': 'Some summary.', 'params': [['c', {'typ': "Literal['x', 'y']", 'doc': 'the c', 'default': 'x'}]], 'kinds': ['?'], 'returns': None}], 'parse': 'explicit', 'emit': 'sqlalchemy', 'tpl': '{name}', 'infer': True, 'prepend': 'import os\n', 'existing': False}))
+W.append(('P38', "C19", {'in': 'argparse', 'names': ['Alpha', 'Beta'], 'irs': [{'name': 'Foo', 'doc': 'Some summary.', 'params': [['a', {'typ': 'int', 'doc': 'the a', 'default': 5}], ['b', {'typ': 'Optional[str]', 'doc': 'the b'}]], 'kinds': ['?', '?'], 'returns': None}, {'name': 'Foo', 'doc': 'Some summary.', 'params': [['c', {'typ': "Literal['x', 'y']", 'doc': 'the c', 'default': 'x'}]], 'kinds': ['?'], 'returns': None}], 'parse': 'explicit', 'emit': 'json_schema', 'tpl': '{name}Config', 'infer': False, 'prepend': None, 'existing': False}))
+W.append(('P17d', "C19", {'in': 'class', 'names': ['Alpha', 'Beta'], 'irs': [{'name': 'Foo', 'doc': 'Some summary.', 'params': [['a', {'typ': 'int', 'doc': 'the a', 'default': 5}], ['b', {'typ': 'Optional[str]', 'doc': 'the b'}]], 'kinds': ['?', '?'], 'returns': None}, {'name': 'Foo', 'doc': 'Some summary.', 'params': [['c', {'typ': "Literal['x', 'y']", 'doc': 'the c', 'default': 'x'}]], 'kinds': ['?'], 'returns': None}], 'parse': 'explicit', 'emit': 'sqlalchemy', 'tpl': '{name}Config', 'infer': False, 'prepend': None, 'existing': False}))
 
 
 def main():
